@@ -471,6 +471,12 @@ func NewUpstream(addr string, opt Opt) (_ Upstream, err error) {
 			t = t1
 		}
 
+		// A bare (unbracketed) IPv6 host without port would be misread by
+		// net/http, which takes everything after the last colon for the port
+		// (wrong SNI and Host header). Put it in brackets.
+		if a, err := netip.ParseAddr(addrURL.Host); err == nil && a.Is6() {
+			addrURL.Host = "[" + addrURL.Host + "]"
+		}
 		u, err := doh.NewUpstream(addrURL.String(), t, opt.Logger)
 		if err != nil {
 			return nil, fmt.Errorf("failed to create doh upstream, %w", err)
